@@ -143,7 +143,7 @@ class Ctx(object):
         if rate < 1.0 and self.rng.random() > rate:
             return
         eng = self.eng
-        r, m, _ = eng._check()
+        r, m, _ = eng._check(*eng.small_lists())
         if r != z3.sat:
             return
         inputs = eng.model_inputs(m)
@@ -153,6 +153,8 @@ class Ctx(object):
         except Exception as e:  # harness failure is a checker fault, reported as mismatch
             self.cross_mismatch.append({"inputs": _jsonable(inputs), "error": repr(e),
                                         "trace": traceback.format_exc()[-800:]})
+            return
+        if obs is None:
             return
         self.crosschecks += 1
         bad = {k: (pred[k], obs.get(k)) for k in pred if _norm(pred[k]) != _norm(obs.get(k))}
